@@ -147,7 +147,7 @@ def ref_settings(ms):
 
 
 @st.composite
-def pattern_family_spec(draw, max_patterns=3):
+def pattern_family_spec(draw, max_patterns=3, always_near=False):
     """Settings shaped like the architecture-decision patterns the dedicated pattern encoders accept (so that those
     encoders are actually exercised), optionally transposed and with some absent-node existence patterns"""
     fam = draw(st.sampled_from(['combining', 'collapsed', 'assigning', 'assigning', 'partitioning', 'connecting',
@@ -193,6 +193,31 @@ def pattern_family_spec(draw, max_patterns=3):
     if draw(ints(0, 3)) == 0:
         src, tgt = tgt, src
         excl = [[j, i] for i, j in excl]
+    # near misses: settings one small step away from the exact pattern shape (where `_matches_pattern` has to say no, or
+    # yes and still code every matrix): toggle one excluded pair, change one degree list, flip one repeat flag
+    near = False
+    if always_near or draw(ints(0, 2)) == 0:
+        near = True
+        for _ in range(draw(ints(1, 2))):
+            kind = draw(st.sampled_from(['excl', 'excl', 'deg', 'rep']))
+            side = draw(st.sampled_from(['src', 'tgt']))
+            nodes_ = src if side == 'src' else tgt
+            i = draw(ints(0, len(nodes_)-1))
+            if kind == 'excl':
+                pair = [draw(ints(0, len(src)-1)), draw(ints(0, len(tgt)-1))]
+                if pair in excl:
+                    excl.remove(pair)
+                else:
+                    excl.append(pair)
+            elif kind == 'rep':
+                nodes_[i] = dict(nodes_[i], rep=not nodes_[i]['rep'])
+            else:
+                nd = dict(nodes_[i])
+                if 'conns' in nd:
+                    nd['conns'] = sorted(set(nd['conns']) ^ {draw(ints(0, 2))}) or [1]
+                else:
+                    nd['min'] = draw(ints(0, 2))
+                nodes_[i] = nd
     patterns = [{'src': {}, 'tgt': {}}]
     for _ in range(draw(ints(0, max_patterns-1))):
         pat = {'src': {}, 'tgt': {}}
@@ -203,4 +228,5 @@ def pattern_family_spec(draw, max_patterns=3):
         if pat not in patterns:
             patterns.append(pat)
     par = draw(st.sampled_from([None, None, None, 2, 3]))
-    return {'src': src, 'tgt': tgt, 'excl': excl, 'par': par, 'patterns': patterns, 'family': fam}
+    return {'src': src, 'tgt': tgt, 'excl': excl, 'par': par, 'patterns': patterns,
+            'family': fam+('_near' if near else '')}
